@@ -23,7 +23,9 @@ CLAUSES = (
     'state delta; pool remove removes the store node; the state delta covers '
     'status, is_held, is_queued and is_runahead; every delta_* method that '
     'writes the update buffer sets updates_pending; the main loop publishes '
-    'when anything updated. Not decided: checksum equality for a '
+    'when anything updated. '
+    'Status and flags are written to the pending delta unless stored and pending values both already equal them. '
+    'Not decided: checksum equality for a '
     'delta-applying client over long runs.')
 
 TP = 'task_pool'
@@ -237,6 +239,37 @@ def check(c):
              isinstance(n, ast.Assign) and norm(n.targets[0]) ==
              'tp_delta.state' and norm(n.value) == 'itask.state.status'
              for n in c.idx.walk(dts.node)), c.where(dts.node, dts), '')
+    # the value goes into the pending delta unless BOTH the stored node and
+    # the pending delta already hold it (a status that left and came back
+    # within one batch must overwrite the intermediate value in the delta)
+    from rules._shared import reach_table
+    for site, atoms, what in (
+            ([n for n in c.idx.walk(dts.node) if isinstance(n, ast.Assign)
+              and norm(n.targets[0]) == 'tp_delta.state'],
+             {'stored': 'tproxy.state == itask.state.status',
+              'pending': 'tp_delta.state == itask.state.status'}, 'status'),
+            (c.find(dts, 'setattr(tp_delta, field, val)'),
+             {'stored': 'getattr(tproxy, field) == val',
+              'pending': 'getattr(tp_delta, field) == val'}, 'flags')):
+        c.floor('C25.field-coverage', f'{dts.fq} :: {what} written to the '
+                'delta', len(site), 1)
+        for n in site:
+            tab = reach_table(c, n, dict(atoms, have='tproxy'), dts)
+            if tab is not None:
+                # (only with a stored node: `if not tproxy: return` first)
+                tab = {k[:2]: v for k, v in tab.items() if k[2]}
+            bad = None
+            if tab is None:
+                bad = 'the write depends on something other than the two ' \
+                    'comparisons'
+            else:
+                for (st_, pe_), got in tab.items():
+                    if got != (not (st_ and pe_)):
+                        bad = (f'stored-equal={st_}, pending-equal={pe_}: '
+                               f'written={got}')
+            c.ob('C25.field-coverage', c.key(n, dts)[:90] + ' unless stored '
+                 'and pending values both equal it', bad is None,
+                 c.where(n, dts), bad or '')
     rs = c.func('task_state', 'TaskState.reset')
     params = [a.arg for a in rs.node.args.args[1:]]
     c.ob('C25.field-coverage', f'{rs.fq} :: parameters covered by the delta',
@@ -291,6 +324,13 @@ def check(c):
 
 
 VARIANTS = [
+    ('status-delta-and-for-or', 'cylc/flow/data_store_mgr.py',
+     '''        if (
+            tproxy.state != itask.state.status
+            or tp_delta.state != itask.state.status
+        ):''',
+     '''        if itask.state.status not in (tproxy.state, tp_delta.state):''',
+     'C25.field-coverage'),
     ('hold-no-delta', 'cylc/flow/task_pool.py',
      '''        if itask.state_reset(is_held=True):
             self.data_store_mgr.delta_task_state(itask)''',
